@@ -260,6 +260,7 @@ func Yield(site string) {
 	s := seq
 	seq++
 	report.Sites[site]++
+	logf("yield %s", site)
 	if maxSeq > 0 && seq > maxSeq {
 		report.Livelock = true
 		endLocked()
